@@ -196,7 +196,17 @@ def run(prog, rep, tier, only=None):
                             rep.check(not bad and data[:64] == want, 'R3-character-set', 'CHAR_LOOKUP@%s' % b['name'].split('::')[-2 if b['kind'] == 'closure' else -1],
                                       '%s:%s' % (b['file'], s.get('sp')), 'the 6-bit character table differs from the Annex 10 subset: %r' % bytes(data[:64]),
                                       sample={'table': bytes(data[:64]).decode('ascii', 'replace')} if tables == 1 else None)
-    rep.floor('6-bit character tables found', tables, 2)
+    # the character function itself (after seed C08-s10 replaced the table by a formula): every u8 -> char function or
+    # closure below a callsign_read, evaluated on each of the 64 singleton codes, only yields characters of the set
+    fns = 0
+    for fb, table in util.char_functions(prog):
+        fns += 1
+        bad = {c_: sorted(chr(v) if isinstance(v, int) and 32 <= v < 127 else str(v) for v in vs) for c_, vs in table.items() if not all(isinstance(v, int) and v in allowed for v in vs)}
+        rep.check(not bad, 'R3-character-set', 'char-function@%s' % fb['name'].split('::{closure')[0].split('::')[-1] + ('#closure' if fb['kind'] == 'closure' else ''),
+                  '%s:%s' % (fb['file'], fb['line']), 'the character function yields characters outside the 6-bit set: %s' % dict(list(bad.items())[:8]),
+                  sample={'character function codes evaluated': 64})
+    rep.floor('6-bit character tables and character functions found', tables + fns, 2)
+    rep.floor('character functions below callsign_read', fns, 1)
     n = 0
     for fn in ('decode::bds::bds08::callsign_read', 'decode::bds::bds21::aircraft_registration_read'):
         fb = util.find_fn(prog, fn, crate='rs1090')
